@@ -177,6 +177,7 @@ func Criteria() Spec {
 		fix(dateCrit("years=10", KW, G, &baskettypes.DateCriteria{YearsInThePast: 10})),                        // window -> years
 		fix(dateCrit("min=epoch", KM, G, &baskettypes.DateCriteria{MinStartDate: gts(time.Unix(0, 0).UTC())})), // min date relaxed to the epoch (all-zero timestamp)
 		fix(dateCrit("window=1d", KE, G, &baskettypes.DateCriteria{StartDateWindow: gdur(24 * time.Hour)})),    // min date -> window
+		fix(dateCrit("present-but-empty", KM, G, &baskettypes.DateCriteria{})),                                 // {}: nothing set = no restriction
 		// windows longer than a Go time.Duration can hold (about 292 years): 300 and 1000 years
 		fix(dateCrit("window=300y", KW, G, &baskettypes.DateCriteria{StartDateWindow: &gogotypes.Duration{Seconds: 300 * 365 * 86400}})),
 		fix(dateCrit("window=1000y", KD, G, &baskettypes.DateCriteria{StartDateWindow: &gogotypes.Duration{Seconds: 1000 * 365 * 86400}})),
